@@ -22,7 +22,21 @@ Good(e) == LET b == SelectBest(e.dists) IN e.rep = b /\ (b = 0 => e.rq = -1) /\ 
 MaskedD02(e) == [i \in 1..Len(e.dists) |-> IF e.sver[i] = "*" /\ e.over \in {"2", "3"} THEN REJ ELSE e.dists[i]]
 KnownD02(e) == e.http /\ LET b == SelectBest(MaskedD02(e)) IN e.rep = b /\ (b = 0 => e.rq = -1) /\ (b > 0 => e.rq = e.qs[b])
 
-RowOk(e) == \/ Good(e)
+\* rows of very large tables carry their distances run-length encoded (runs[j] = <<distance, how many entries in a row have it>>, qruns
+\* likewise for the qualities): the first entry with the smallest distance is the first entry of the first run with the smallest
+\* non-negative distance
+RECURSIVE StartOf(_, _)
+StartOf(runs, j) == IF j = 1 THEN 1 ELSE StartOf(runs, j - 1) + runs[j - 1][2]
+BestRun(runs) == LET acc == {j \in 1..Len(runs) : runs[j][1] >= 0} IN
+                 IF acc = {} THEN 0 ELSE CHOOSE j \in acc : \A k \in acc : runs[j][1] < runs[k][1] \/ (runs[j][1] = runs[k][1] /\ j <= k)
+GoodRuns(e) == LET j == BestRun(e.runs) IN
+               IF j = 0 THEN e.rep = 0 /\ e.rq = -1 ELSE e.rep = StartOf(e.runs, j) /\ e.rq = e.qbest
+RunRowOk(e) == GoodRuns(e) \/ PrintT("BAD " \o ToJson([id |-> e.id, k |-> e.k, want |-> (IF BestRun(e.runs) = 0 THEN 0 ELSE StartOf(e.runs, BestRun(e.runs))), rep |-> e.rep, rq |-> e.rq, dists |-> e.runs]))
+ASSUME BestRun(<<<<-1, 5>>, <<3, 2>>, <<-1, 1>>, <<0, 4>>, <<0, 1>>>>) = 4 /\ StartOf(<<<<-1, 5>>, <<3, 2>>, <<-1, 1>>, <<0, 4>>, <<0, 1>>>>, 4) = 9 /\ BestRun(<<<<-1, 9>>>>) = 0
+
+RowOk(e) == \/ ("runs" \in DOMAIN e /\ RunRowOk(e))
+            \/ ("runs" \in DOMAIN e)
+            \/ Good(e)
             \/ (KnownD02(e) /\ PrintT("KNOWN " \o ToJson([dev |-> "D02_http_any_10_11", id |-> e.id, k |-> e.k])))
             \/ PrintT("BAD " \o ToJson([id |-> e.id, k |-> e.k, want |-> SelectBest(e.dists), rep |-> e.rep, rq |-> e.rq, dists |-> e.dists]))
 
